@@ -23,7 +23,10 @@ RULE = (
     "Hypothesis: generator class in {" + ", ".join(MODELS) + "} x parameter set (1-3 blocs, exactly "
     "2 for AlternatingCrossover / CambridgeSampler, 1-2 for slate-Bradley-Terry; slate sizes 1-3; "
     "supports spanning 1e-6..1e3 with exact zeros; cohesion and proportion vectors as integers over "
-    "their sum, 0 and 1 entries included) x N in 1..60 x seeded stream; by_bloc=True is requested "
+    "their sum, 0 and 1 entries included; the blocs listed in independently generated orders in "
+    "each parameter dictionary) x N in 1..60 (one case in fourteen 97/250/1000) x seeded stream; a "
+    "decoy generator of the same class over the same bloc names is constructed before use and the "
+    "same object is asked again for a different N; by_bloc=True is requested "
     "wherever the model supports it and compared with the by_bloc=False run under the same seed.  "
     "Oracle: validity predicates (size, whole positive weights, declared candidates, no repeats, "
     "completeness with zero-support candidates as one final tie, short-PL length, cumulative point "
